@@ -148,7 +148,7 @@ func nativeReplay(pr *Program, pkgKey, prop string, runs []*HarnessRun, rep *Rep
 		return
 	}
 	t0 := time.Now()
-	outDir := filepath.Join(verifRoot, "replays", prop)
+	outDir := filepath.Join(replayRoot(), prop)
 	os.MkdirAll(outDir, 0755)
 	// clear old vectors for the harnesses we ran
 	old, _ := filepath.Glob(filepath.Join(outDir, "*.json"))
@@ -278,4 +278,12 @@ func tail(s string, n int) string {
 		return s[len(s)-n:]
 	}
 	return s
+}
+
+// replayRoot: where vectors are written; VERIF_REPLAYDIR redirects it (used when a check is run against a scratch tree).
+func replayRoot() string {
+	if d := os.Getenv("VERIF_REPLAYDIR"); d != "" {
+		return d
+	}
+	return filepath.Join(verifRoot, "replays")
 }
